@@ -300,6 +300,21 @@ def immutable(r, F):
                     fo2 = s.rv.place.field_ofs()
                     if any(of == REC and nm == "data" for of, nm in fo2):
                         r.fail(f, "&mut Record.data", "a mutable borrow of a live record's data is taken", ln=s.ln)
+    # no function hands out `&mut` / `*mut` derived from Record.data, and no pointer derived from it is cast to `*mut`
+    for f in F.all_fns("P"):
+        if not f.crate.name.startswith("foyer"):
+            continue
+        rt = f.local_ty(0)
+        if rt.startswith("&mut") or rt.startswith("*mut"):
+            sl = backslice(f, 0, "prov")
+            if any(of == REC and nm == "data" for of, nm in sl.fields):
+                r.fail(f, "returns &mut into Record.data", "a mutable reference / pointer into a live record's data is handed out", ln=f.lo)
+        for b in f.blocks:
+            for s in b.stmts:
+                if s.k == "assign" and s.rv.k == "cast" and f.ty(s.rv.j["t"]).startswith("*mut") and s.rv.ops and s.rv.ops[0].place is not None:
+                    sl = backslice(f, s.rv.ops[0], "prov")
+                    if any(of == REC and nm == "data" for of, nm in sl.fields):
+                        r.fail(f, "cast to *mut of Record.data", "a pointer into a live record's data is cast to `*mut`", ln=s.ln)
     # accessors return shared borrows of the stored fields
     for acc, fld in (("key", "key"), ("value", "value"), ("properties", "properties")):
         fn = F.method(REC, acc)
